@@ -92,9 +92,14 @@ pub fn n_params(s: &LayerSpec) -> usize {
 
 /// Build the corgi layers of a stack. `acts` must outlive the returned layers (Dense borrows its activation).
 pub fn build_layers<'a>(specs: &[LayerSpec], acts: &'a [Option<Activation>], pseed: u64, kind: VKind, log: Option<&SnapLog>) -> Vec<Box<dyn Layer + 'a>> {
+    build_layers_scaled(specs, acts, pseed, kind, 1.0, log)
+}
+
+/// as `build_layers`, with every generated parameter multiplied by `scale` (large logits)
+pub fn build_layers_scaled<'a>(specs: &[LayerSpec], acts: &'a [Option<Activation>], pseed: u64, kind: VKind, scale: f64, log: Option<&SnapLog>) -> Vec<Box<dyn Layer + 'a>> {
     let mut out: Vec<Box<dyn Layer + 'a>> = vec![];
     for (i, s) in specs.iter().enumerate() {
-        let init = stream_initializer(gen_vals(pseed.wrapping_add(i as u64 * 7919), n_params(s).max(1), kind));
+        let init = stream_initializer(gen_vals(pseed.wrapping_add(i as u64 * 7919), n_params(s).max(1), kind).into_iter().map(|v| v * scale).collect());
         let l: Box<dyn Layer + 'a> = match s {
             LayerSpec::Dense { input, output, .. } => Box::new(Dense::new(*input, *output, &init, acts[i].as_ref())),
             LayerSpec::Conv { count, depth, fr, fc, sr, sc, act } => Box::new(Conv::new((*count, *depth, *fr, *fc), (*sr, *sc), &init, make_act(*act))),
